@@ -12,6 +12,11 @@ PROPS_COMP_RULE = ("each run = one plan drawn from a 63-bit seed (composition / 
                    "against the real templates over logging leaf allocators; distinct = distinct run hash (op "
                    "outcomes, returned offsets, leaf ledger); non-trivial = at least two creation/operation cases")
 
+PROPS_COMP_RULE_CONT = ("each run = one plan drawn from a 63-bit seed (container kind, element type, allocator "
+                        "flavour, operation history over 4 containers on 2 allocators, allocation failures); distinct = "
+                        "distinct run hash (outcome and per-allocator live counts after each op); non-trivial = at least "
+                        "4 operations of which at least one is a cross-container operation (assign/move/swap/copy/splice)")
+
 HIST_RULE = ("each run = one plan drawn from a 63-bit seed (SUT type and parameters, block source, placement "
              "policy of upstream blocks and of the allocator object, interface family mix, op mix, fault "
              "plan), executed against the real library; distinct = distinct run hash (sequence of op outcomes, "
@@ -150,6 +155,25 @@ PROPS = {
              "owner. joint_ptr/joint_array forms are covered by the C11 engine part of this check.",
         note="Length 0 arrays are not requested (array count must be valid, i.e. non-zero).",
         design="3/C20"),
+    "C10": dict(
+        engine="compsim", profile="C10", builds=["dbg", "rwdi"], level="exploration",
+        quick_s=40, thorough_s=600, rule=PROPS_COMP_RULE_CONT,
+        stubs=["two stateful logging leaf RawAllocators A and B (and a stateless one) that notice a release of "
+               "memory they did not hand out or with other parameters", "std::allocator containers as reference "
+               "model"],
+        technique="deterministic simulation: seeded operation histories over 4 containers bound to two allocator "
+                  "objects (insert/erase/clear/copy/move/swap/copy-with-allocator/splice/merge), allocation "
+                  "failure injected at the k-th allocation of an operation; per-allocator ledger, reference "
+                  "containers, equality oracle",
+        text="11 container kinds + string x 5 element types (size 1..128, alignment 1..16) x typed / type-erased "
+             "/ stateless std_allocator: every operation is mirrored on std::allocator containers and contents "
+             "compared; a leaf that is handed memory it did not serve raises the alarm at that operation; "
+             "operator== of the allocators must agree with 'same allocator object'; splice/merge are issued "
+             "iff the library says equal; all memory back when the containers are gone; every single-node "
+             "request of a node container must fit X_node_size<T>.",
+        note="After an operation that failed with an injected allocation failure only the basic guarantee is "
+             "assumed: the reference is re-synchronised from the container.",
+        design="3/C10"),
     "C11": dict(
         engine="compsim", profile="C11", builds=["dbg", "rwdi"], level="exploration",
         quick_s=35, thorough_s=600, rule=PROPS_COMP_RULE,
